@@ -12,6 +12,12 @@ class Facts:
         self.adts = {a["path"]: a for a in doc["adts"]}
         self.impls = doc["impls"]
         self.traits = doc["traits"]
+        from . import core as _core
+        _core.PROMOTED.clear()
+        _core._PROMOTED_BODIES.clear()
+        for f in doc["fns"]:
+            if f.get("promoted"):
+                _core.PROMOTED[f["key"]] = f["promoted"]
         self.closures_of = {}
         for f in doc["fns"]:
             if f["kind"] == "Closure":
